@@ -451,13 +451,15 @@ impl<'a> ExprAST<'a> {
     }
 }
 
-// Nesting limit of the parser: bounds the recursion of the parser itself and the depth of the
-// tree it returns (clone, drop, exec, expr and describe all recurse over that tree).
+// Nesting limit of the parser: bounds the recursion of the parser itself (depth) and the height of
+// every tree it builds (clone, drop, exec, expr and describe all recurse over that tree).
 const MAX_DEPTH: usize = 256;
 
 pub struct Parser<'a> {
     tokenizer: Tokenizer<'a>,
     depth: usize,
+    // height of the tree returned by the most recent parse_* call
+    height: usize,
 }
 
 impl<'a> Parser<'a> {
@@ -471,6 +473,7 @@ impl<'a> Parser<'a> {
         Ok(Self {
             tokenizer: tokenizer,
             depth: 0,
+            height: 0,
         })
     }
 
@@ -491,18 +494,22 @@ impl<'a> Parser<'a> {
         match token {
             Token::Number(val, _) => {
                 self.next()?;
+                self.height = 1;
                 Ok(ExprAST::Literal(Literal::Number(val)))
             }
             Token::Bool(val, _) => {
                 self.next()?;
+                self.height = 1;
                 Ok(ExprAST::Literal(Literal::Bool(val)))
             }
             Token::String(val, _) => {
                 self.next()?;
+                self.height = 1;
                 Ok(ExprAST::Literal(Literal::String(val)))
             }
             Token::Reference(val, _) => {
                 self.next()?;
+                self.height = 1;
                 Ok(ExprAST::Reference(val))
             }
             Token::Function(name, _) => self.parse_function(name),
@@ -535,6 +542,15 @@ impl<'a> Parser<'a> {
         self.parse_op(0, lhs)
     }
 
+    // records the height of a node that was just built on top of children of height `below`
+    fn built(&mut self, below: usize) -> Result<()> {
+        self.height = below + 1;
+        if self.height > MAX_DEPTH {
+            return Err(Error::TooDeep);
+        }
+        Ok(())
+    }
+
     // every level of nesting in the resulting tree passes through here or through the loop in parse_op
     fn enter(&mut self) -> Result<()> {
         self.depth += 1;
@@ -556,6 +572,7 @@ impl<'a> Parser<'a> {
         if self.tokenizer.cur_token.is_postfix_op_token() {
             let op = self.tokenizer.cur_token.string();
             self.next()?;
+            self.built(self.height)?;
             return Ok(ExprAST::Postfix(Box::new(lhs), op.to_string()));
         }
         Ok(lhs)
@@ -570,7 +587,10 @@ impl<'a> Parser<'a> {
     }
 
     fn parse_op_inner(&mut self, exec_prec: i32, mut lhs: ExprAST<'a>) -> Result<ExprAST<'a>> {
+        // height of `lhs` (the caller has just parsed it)
+        let mut lhs_height = self.height;
         loop {
+            self.height = lhs_height;
             if !self.tokenizer.cur_token.is_op_token() {
                 return Ok(lhs);
             }
@@ -587,8 +607,10 @@ impl<'a> Parser<'a> {
                 self.next()?;
                 self.enter()?;
                 let a = self.parse_expression()?;
+                let a_height = self.height;
                 self.expect(":")?;
                 let b = self.parse_expression()?;
+                self.built(lhs_height.max(a_height).max(self.height))?;
                 return Ok(ExprAST::Ternary(Box::new(lhs), Box::new(a), Box::new(b)));
             }
             let (l_bp, r_bp) = if is_not {
@@ -618,10 +640,13 @@ impl<'a> Parser<'a> {
                 rhs = self.parse_op(r_bp, rhs)?;
             }
             self.enter()?;
+            self.built(lhs_height.max(self.height))?;
             lhs = ExprAST::Binary(op, Box::new(lhs), Box::new(rhs));
             if is_not {
+                self.built(self.height)?;
                 lhs = ExprAST::Unary("not", Box::new(lhs));
             }
+            lhs_height = self.height;
         }
     }
 
@@ -662,35 +687,42 @@ impl<'a> Parser<'a> {
     fn parse_open_bracket(&mut self) -> Result<ExprAST<'a>> {
         self.next()?;
         let mut exprs = Vec::new();
+        let mut below = 0;
         loop {
             if self.is_eof() || self.cur_tok().is_close_bracket() {
                 break;
             }
             exprs.push(self.parse_expression()?);
+            below = below.max(self.height);
             if !self.cur_tok().is_close_bracket() {
                 self.expect(",")?;
             }
         }
         self.expect("]")?;
+        self.built(below)?;
         Ok(ExprAST::List(exprs))
     }
 
     fn parse_open_brace(&mut self) -> Result<ExprAST<'a>> {
         self.next()?;
         let mut m = Vec::new();
+        let mut below = 0;
         loop {
             if self.is_eof() || self.cur_tok().is_close_brace() {
                 break;
             }
             let k = self.parse_expression()?;
+            below = below.max(self.height);
             self.expect(":")?;
             let v = self.parse_expression()?;
+            below = below.max(self.height);
             m.push((k, v));
             if !self.cur_tok().is_close_brace() {
                 self.expect(",")?;
             }
         }
         self.expect("}")?;
+        self.built(below)?;
         Ok(ExprAST::Map(m))
     }
 
@@ -699,7 +731,9 @@ impl<'a> Parser<'a> {
             return Err(Error::PrefixOpNotRegistered(op.to_string()));
         }
         self.next()?;
-        Ok(ExprAST::Unary(op, Box::new(self.parse_primary()?)))
+        let operand = self.parse_primary()?;
+        self.built(self.height)?;
+        Ok(ExprAST::Unary(op, Box::new(operand)))
     }
 
     fn parse_function(&mut self, name: &'a str) -> Result<ExprAST<'a>> {
@@ -708,11 +742,14 @@ impl<'a> Parser<'a> {
         let mut ans = Vec::new();
         if self.cur_tok().is_close_paren() {
             self.next()?;
+            self.built(0)?;
             return Ok(ExprAST::Function(name, ans));
         }
         let has_right_paren;
+        let mut below = 0;
         loop {
             ans.push(self.parse_expression()?);
+            below = below.max(self.height);
             if self.cur_tok().is_close_paren() {
                 has_right_paren = true;
                 self.next()?;
@@ -723,6 +760,7 @@ impl<'a> Parser<'a> {
         if !has_right_paren {
             return Err(Error::NoCloseDelim);
         }
+        self.built(below)?;
         Ok(ExprAST::Function(name, ans))
     }
 }
